@@ -529,7 +529,14 @@ class Exec:
         b1 = a.slot(('bbox',))
         b2 = a.slot(('bbox',))
         v = a.rng.pick(['union', 'intersection', 'as_artist', 'to_region',
-                        'props', 'slices', 'eq', 'repr'])
+                        'props', 'slices', 'eq', 'repr', 'from_float'])
+        if v == 'from_float':
+            from regions import RegionBoundingBox
+            x = sorted(a.rng.uniform(-5, 30) for _ in range(2))
+            y = sorted(a.rng.uniform(-5, 30) for _ in range(2))
+            return (lambda: RegionBoundingBox.from_float(x[0], x[1], y[0],
+                                                         y[1])), \
+                'bbox.from_float', None
         if v == 'union':
             fn = lambda: b1 | b2  # noqa
         elif v == 'intersection':
@@ -579,6 +586,16 @@ class Exec:
             kw['meta'] = build({'t': 'meta', 'v': gen.meta_items(a.rng)})
         if a.rng.chance(0.3):
             kw['visual'] = build({'t': 'visual', 'v': gen.visual_items(a.rng)})
+        fields = gen.ALL_CLASSES.get(_n(reg))
+        if fields and a.rng.chance(0.4):
+            f, kind = a.rng.pick(fields)
+            if kind not in ('text',):
+                kw[f] = build(gen.value_recipe(
+                    kind, a.rng.randrange(gen.KIND_SIZES[kind])))
+        if a.rng.chance(0.15):
+            which = a.rng.pick(['meta', 'visual'])
+            return (lambda: getattr(reg, which).copy()), \
+                f'{_n(reg)}.{which}.copy()', None
         how = a.rng.pick(['copy', 'copy', 'deepcopy'])
         if how == 'deepcopy':
             return (lambda: copy.deepcopy(reg)), f'deepcopy({_n(reg)})', None
@@ -657,12 +674,15 @@ class Exec:
             fn = lambda: p.rotate(c, ang)  # noqa
         elif v == 'to_sky':
             w = self._wcs(a)
-            fn = lambda: p.to_sky(w)  # noqa
+            okw = a.rng.pick([{}, {'origin': 1}, {'mode': 'wcs'},
+                              {'origin': 1, 'mode': 'wcs'}])
+            fn = lambda: p.to_sky(w, **okw)  # noqa
         elif v == 'from_sky':
             from regions import PixCoord
             sc = a.slot(('sky0', 'skyN'))
             w = self._wcs(a)
-            fn = lambda: PixCoord.from_sky(sc, w)  # noqa
+            okw = a.rng.pick([{}, {'origin': 1}, {'mode': 'wcs'}])
+            fn = lambda: PixCoord.from_sky(sc, w, **okw)  # noqa
         elif v == 'iter':
             def fn():
                 it = iter(p)
